@@ -113,6 +113,8 @@ IDENTITY_FNS = {
     ("core", "must_use"), ("core", "as_slice"), ("core", "as_mut_slice"), ("core", "get"),
     ("alloc", "into_boxed_slice"), ("alloc", "into_boxed_str"), ("alloc", "as_str"),
     ("core", "assume_init_mut"), ("core", "assume_init_ref"), ("core", "by_ref"),
+    # pointer casts that keep the address (`p.cast::<u8>()` is `p as *mut u8`)
+    ("core", "cast"), ("core", "cast_mut"), ("core", "cast_const"),
 }
 
 
@@ -181,6 +183,11 @@ class Interp:
         return ("bin", "Mul", x, y)
 
     def binop(self, op, a, b):
+        # a named constant keeps its name only while it travels alone: arithmetic on it is arithmetic on its value
+        if isinstance(a, tuple) and a and a[0] == "namedc" and isinstance(a[2], int) and (is_c(b) or (isinstance(b, tuple) and b and b[0] == "namedc")):
+            a = C(a[2])
+        if isinstance(b, tuple) and b and b[0] == "namedc" and isinstance(b[2], int) and is_c(a):
+            b = C(b[2])
         if is_c(a) and is_c(b):
             x, y = a[1], b[1]
             try:
@@ -407,6 +414,19 @@ class Interp:
                 for s in pat["subs"]:
                     sub = self.project(val, ("f", s["f"], str(s["f"])))
                     r = self.bind(st, frame, s["p"], sub, conds_out)
+                    if r is False:
+                        return False
+                    if r is None:
+                        ok = None
+                return ok
+            known = [c for c in st.conds if c[0] == "variant" and c[1] == val and c[2] == adt]
+            if known:
+                # the same value was already matched: a second match on it follows the same variant
+                if any(c[3] != vi for c in known):
+                    return False
+                ok = True
+                for s in pat["subs"]:
+                    r = self.bind(st, frame, s["p"], ("vfield", val, vi, s["f"]), conds_out)
                     if r is False:
                         return False
                     if r is None:
@@ -696,6 +716,9 @@ class Interp:
             return [(st, ("assoc", selft, nm))]
         if b is not None:
             if b.value and "v" in b.value:
+                pent = self.u.defs.get(d.rsplit("::", 1)[0]) if "::" in d else None
+                if dj.get("parent_kind") in ("Fn", "AssocFn", "Closure") or (pent is not None and str(pent[1].get("kind", "")).startswith(("Fn", "AssocFn", "Closure"))):
+                    return [(st, C(b.value["v"]))]            # a function-local constant is just a name for its value
                 return [(st, ("namedc", d, b.value["v"]))]
             r = self.eval_const_body(b, targs, frame)
             if r is not None:
@@ -736,7 +759,11 @@ class Interp:
         return [(st, ("unknown", "zst"))]
 
     def e_Closure(self, frame, e, st):
-        return [(st, ("closure", frame.crate.def_id(e["d"]), frame.uid))]
+        if not hasattr(self, "closure_tsub"):
+            self.closure_tsub = {}
+        did = frame.crate.def_id(e["d"])
+        self.closure_tsub[(did, frame.uid)] = frame.tsub
+        return [(st, ("closure", did, frame.uid))]
 
     def e_ConstBlock(self, frame, e, st):
         return [(st, ("const", frame.crate.def_id(e["d"])))]
@@ -762,9 +789,19 @@ class Interp:
                     if "init" in stmt:
                         for (s2, v) in self.ev(frame, stmt["init"], s):
                             conds = []
-                            r = self.bind(s2, frame, stmt["pat"], v, conds)
+                            s_else = s2.fork() if "else" in stmt else None
+                            r = self.bind(s2, frame, stmt["pat"], self.load_ref(s2, v) if "else" in stmt else v, conds)
+                            if "else" in stmt:
+                                # `let PAT = init else { diverge }`: the else block runs when the pattern does not match
+                                if r is not True:
+                                    if conds:
+                                        s_else.conds.append(("else", self.load_ref(s_else, v), tuple(conds)))
+                                    eb = stmt["else"]
+                                    self.ev(frame, eb, s_else) if "k" in eb else self.e_Block(frame, {"b": eb}, s_else)   # diverges
+                                if r is False:
+                                    continue
                             if r is None and conds:
-                                # let-else / refutable: record condition
+                                # refutable: record condition
                                 s2.conds.extend(conds)
                             nxt.append(s2)
                     else:
@@ -842,7 +879,8 @@ class Interp:
                     out.extend(self.ev(frame, e["then"], s))
                 if r is not True:
                     if conds:
-                        s_else.conds.append(("not", tuple(conds)))
+                        # same form as the catch-all arm of a `match` on the same scrutinee
+                        s_else.conds.append(("else", self.load_ref(s_else, v), tuple(conds)))
                     if "else" in e:
                         out.extend(self.ev(frame, e["else"], s_else))
                     else:
@@ -936,6 +974,14 @@ class Interp:
         return out
 
     def try_value(self, frame, s, v, e):
+        if isinstance(v, tuple) and v and v[0] == "inspected":
+            inner, fv = v[1], v[2]
+            if self.explicit_try:
+                for (s2, _x) in self.call_value(frame, s.fork(), e, fv, [("errof", inner)]):
+                    s2.events.append(("TryErr", frame.crate.span(e["sp"]), inner))
+                    frame.done.append((s2, "ret", ("adt", "core::result::Result", 1, ((0, ("errof", inner)),))))
+            s.events.append(("TryEdge", frame.crate.span(e["sp"]), inner))
+            return [(s, ("tryok", inner))]
         if isinstance(v, tuple) and v and v[0] == "adt":
             if v[1] == "core::result::Result":
                 if v[2] == 0:
@@ -1081,7 +1127,8 @@ class Interp:
         cb = self.u.bodies.get(clos[1])
         if cb is None or cb.thir is None:
             raise Unsupported("closure body not exported: %s" % (clos[1],))
-        fr = Frame(cb, frame.tsub, frame.depth)
+        # the closure's generics are those of the function that created it, wherever it is called from
+        fr = Frame(cb, getattr(self, "closure_tsub", {}).get((clos[1], clos[2]), frame.tsub), frame.depth)
         fr.uid = clos[2]                      # upvars are the creator's locals
         params = [p for p in cb.thir["params"] if "pat" in p]
         for p_, a in zip(params, argvals):
@@ -1093,6 +1140,43 @@ class Interp:
             else:
                 frame.done.append((s2, kind, v))
         return res
+
+    def is_callable(self, v):
+        return isinstance(v, tuple) and bool(v) and v[0] in ("closure", "fnitem")
+
+    def call_value(self, frame, s, e, fv, argvals):
+        """Call a first-class function value: a closure, or a function item (named function, method, constructor)."""
+        if fv[0] == "closure":
+            return self.call_closure(frame, s, fv, argvals)
+        did, gargs = fv[1], fv[2]
+        if "{constructor#" in did:
+            var = did.rsplit("::", 2)[0] if did.endswith("}") else did
+            parts = did.split("::")
+            vname = parts[-2]
+            enum = "::".join(parts[:-2])
+            idx = None
+            CORE_VARIANTS = {"core::option::Option": ("None", "Some"), "core::result::Result": ("Ok", "Err"),
+                             "core::ops::range::Bound": ("Included", "Excluded", "Unbounded"),
+                             "core::ops::control_flow::ControlFlow": ("Continue", "Break")}
+            if enum in CORE_VARIANTS:
+                idx = CORE_VARIANTS[enum].index(vname) if vname in CORE_VARIANTS[enum] else None
+            else:
+                ent = self.u.adts.get(enum)
+                if ent is not None:
+                    for v_ in ent[1]["variants"]:
+                        if v_["name"] == vname:
+                            idx = v_["index"]
+                else:
+                    ent = self.u.adts.get("::".join(parts[:-1]))      # tuple struct constructor
+                    if ent is not None:
+                        enum, idx = "::".join(parts[:-1]), 0
+            if idx is None:
+                raise Unsupported("constructor value %s" % did)
+            return [(s, ("adt", enum, idx, tuple((i, a) for i, a in enumerate(argvals))))]
+        ent = self.u.defs.get(did)
+        if ent is None:
+            raise Unsupported("function value %s" % did)
+        return self.do_call(frame, s, e, did, ent[1], gargs, None, None, list(argvals))
 
     def closure_loop(self, frame, s, e, itv, clos, mode):
         """`it.map(f).collect()`, `it.try_for_each(f)`, `it.for_each(f)`: one symbolic iteration of the closure body,
@@ -1164,7 +1248,98 @@ class Interp:
             return self._find_while_let_next(e["e"])
         return None
 
+    def _find_while_cond(self, e):
+        """`while cond { body }`  =  loop { if cond { body } else { break } }  (cond not a `let`)"""
+        if not isinstance(e, dict):
+            return None
+        k = e.get("k")
+        if k == "If" and e["cond"].get("k") != "LetExpr" and "else" in e:
+            el = e["else"]
+            while isinstance(el, dict) and el.get("k") in ("Use", "NeverToAny", "Scope") and "e" in el:
+                el = el["e"]
+            if isinstance(el, dict) and el.get("k") == "Block":
+                bb = el["b"]
+                if not bb["stmts"] and "expr" in bb:
+                    el = bb["expr"]
+                elif len(bb["stmts"]) == 1 and bb["stmts"][0]["k"] == "Expr" and "expr" not in bb:
+                    el = bb["stmts"][0]["e"]
+                while isinstance(el, dict) and el.get("k") in ("Use", "NeverToAny", "Scope") and "e" in el:
+                    el = el["e"]
+            if isinstance(el, dict) and el.get("k") == "Break" and "e" not in el:
+                return e["cond"], e["then"]
+            return None
+        if k == "Block":
+            b = e["b"]
+            if "expr" in b and not b["stmts"]:
+                return self._find_while_cond(b["expr"])
+            if len(b["stmts"]) == 1 and b["stmts"][0]["k"] == "Expr" and "expr" not in b:
+                return self._find_while_cond(b["stmts"][0]["e"])
+        if k in ("Use", "NeverToAny", "Scope"):
+            return self._find_while_cond(e["e"])
+        return None
+
+    def counting_while(self, frame, e, st, cond_e, body_e):
+        """A `while` whose condition compares a quantity that every iteration moves by exactly one step -- a counter
+        (`i < n` with `i += 1`, `left != 0` with `left -= 1`) or the length of a vector the body pushes to once -- runs a
+        known number of times. Returns the paths, or None when the shape is not recognised."""
+        import copy
+        probe = copy.deepcopy(st)
+        try:
+            c0s = self.ev(frame, cond_e, probe)
+        except Unsupported:
+            return None
+        if len(c0s) != 1:
+            return None
+        s0, c0 = c0s[0]
+        c0 = self.load_ref(s0, c0)
+        if not (isinstance(c0, tuple) and c0 and c0[0] == "bin" and c0[1] in ("Lt", "Gt", "Ne", "Le", "Ge")):
+            return None
+        # one trial iteration on a copy, to see how the two sides move
+        frame.loops.append({"breaks": [], "continues": []})
+        try:
+            res = self.ev(frame, body_e, s0)
+        except Unsupported:
+            frame.loops.pop()
+            return None
+        lp = frame.loops.pop()
+        ends = [x[0] for x in res] + lp["continues"]
+        if not ends or lp["breaks"]:
+            return None
+        count = None
+        for s1 in ends:
+            try:
+                c1s = self.ev(frame, cond_e, copy.deepcopy(s1))
+            except Unsupported:
+                return None
+            if len(c1s) != 1:
+                return None
+            c1 = self.load_ref(c1s[0][0], c1s[0][1])
+            if not (isinstance(c1, tuple) and c1 and c1[0] == "bin" and c1[1] == c0[1]):
+                # the condition folded to a constant after one step (constant bounds): not handled here
+                return None
+            a0, b0, a1, b1 = c0[2], c0[3], c1[2], c1[3]
+            op = c0[1]
+            this = None
+            if b0 == b1 and a1 == self.binop("Add", a0, C(1)) and op in ("Lt", "Ne"):
+                this = self.binop("Sub", b0, a0) if a0 != C(0) else b0           # i < n, i += 1
+            elif a0 == a1 and b1 == self.binop("Add", b0, C(1)) and op in ("Gt", "Ne"):
+                this = self.binop("Sub", a0, b0) if b0 != C(0) else a0           # n > i
+            elif b0 == b1 and b0 == C(0) and op in ("Ne", "Gt") and (a1 == self.binop("Sub", a0, C(1)) or a1 == ("bin", "Sub", a0, C(1))):
+                this = a0                                                        # left != 0, left -= 1
+            if this is None or (count is not None and this != count):
+                return None
+            count = this
+        if count is None:
+            return None
+        itv = ("adt", "core::ops::range::Range", 0, ((0, C(0)), (1, count)))
+        return self.run_loop(frame, st, itv, None, body_e, e)
+
     def e_Loop(self, frame, e, st):
+        wc = self._find_while_cond(e["body"])
+        if wc is not None:
+            r = self.counting_while(frame, e, st, wc[0], wc[1])
+            if r is not None:
+                return r
         wl = self._find_while_let_next(e["body"])
         if wl is not None:
             call, pat, body = wl
@@ -1228,7 +1403,10 @@ class Interp:
             # closure / fn pointer call
             out = []
             for (s, vs) in self.ev_seq(frame, ([e["fun"]] if "fun" in e else []) + e["args"], st):
-                fv = vs[0] if "fun" in e else None
+                fv = self.load_ref(s, vs[0]) if "fun" in e else None
+                if fv is not None and self.is_callable(fv):
+                    out.extend(self.call_value(frame, s, e, fv, list(vs[1:])))
+                    continue
                 out.append((s, ("call", "indirect", tuple(vs), None)))
             return out
         crate = frame.crate
@@ -1251,6 +1429,12 @@ class Interp:
         sp = frame.crate.span(e["sp"])
         targs_lt = targs
         targs = tuple(a for a in targs if a != ("lt",))
+        # a call through Fn/FnMut/FnOnce of a known function value is the call of that function
+        if dj["krate"] == "core" and dj.get("name") in ("call", "call_mut", "call_once") and len(args) == 2 and "ops::function" in str(callee):
+            fv = self.load_ref(s, args[0])
+            tup = self.load_ref(s, args[1])
+            if self.is_callable(fv) and isinstance(tup, tuple) and tup and tup[0] == "tuple":
+                return self.call_value(frame, s, e, fv, list(tup[1]))
         # hooks first (domain specific primitives)
         if self.hooks is not None:
             r = self.hooks.call(self, frame, s, e, callee, dj, tuple(a for a in targs if a != ("lt",)), resolved, rargs, args)
@@ -1322,13 +1506,80 @@ class Interp:
             return [(s, self.binop("Eq", l, C(0)))]
         if krate == "core" and name in ("max", "min") and len(args) == 2:
             a, b = self.load_ref(s, args[0]), self.load_ref(s, args[1])
+            unname = lambda x: C(x[2]) if (isinstance(x, tuple) and x and x[0] == "namedc" and isinstance(x[2], int)) else x
+            if (is_c(a) or is_c(b)) or (unname(a) is not a and unname(b) is not b):
+                a, b = unname(a), unname(b)
             if is_c(a) and is_c(b):
                 return [(s, C(max(a[1], b[1]) if name == "max" else min(a[1], b[1])))]
             if a == b:
                 return [(s, a)]
             x, y = sorted([a, b], key=repr)
             return [(s, ("call", name, (x, y), None))]
-        if krate == "core" and name in ("or_else", "and_then", "map", "map_err") and len(args) == 2 and isinstance(args[1], tuple) and args[1] and args[1][0] == "closure":
+        if krate == "core" and name in ("filter", "map", "ok_or", "ok_or_else", "and_then", "unwrap_or", "unwrap_or_else", "is_some", "is_none", "map_or") and args:
+            a = self.load_ref(s, args[0])
+            if ("option::Option" in (dj.get("n") or "") or "core::option::" in str(callee)) and not (isinstance(a, tuple) and a and a[0] == "adt") and name not in ("is_some", "is_none") \
+                    and (len(args) < 2 or self.is_callable(args[1]) or name in ("ok_or", "unwrap_or")):
+                # an Option nobody has looked inside yet: the combinator does, exactly like a `match` on it would
+                OPT = "core::option::Option"
+                out = []
+                for vi, vname in ((1, "Some"), (0, "None")):
+                    s2 = s.fork() if vi == 1 else s
+                    known = [c for c in s2.conds if c[0] == "variant" and c[1] == a and c[2] == OPT]
+                    if known and any(c[3] != vi for c in known):
+                        continue
+                    if not known:
+                        s2.conds.append(("variant", a, OPT, vi, vname))
+                    val = ("adt", OPT, 1, ((0, ("vfield", a, 1, 0)),)) if vi == 1 else ("adt", OPT, 0, ())
+                    out.extend(self.do_call(frame, s2, e, callee, dj, targs_lt, resolved, rargs, [val] + list(args[1:])))
+                return out
+            if isinstance(a, tuple) and a and a[0] == "adt" and a[1] == "core::option::Option":
+                OPT, RES = "core::option::Option", "core::result::Result"
+                some = a[2] == 1
+                pay = dict(a[3]).get(0) if some else None
+                if name == "is_some":
+                    return [(s, C(int(some)))]
+                if name == "is_none":
+                    return [(s, C(int(not some)))]
+                if name == "ok_or" and len(args) == 2:
+                    return [(s, ("adt", RES, 0, ((0, pay),)) if some else ("adt", RES, 1, ((0, self.load_ref(s, args[1])),)))]
+                if name == "unwrap_or" and len(args) == 2:
+                    return [(s, pay if some else self.load_ref(s, args[1]))]
+                if len(args) == 2 and self.is_callable(args[1]):
+                    if name == "ok_or_else":
+                        if some:
+                            return [(s, ("adt", RES, 0, ((0, pay),)))]
+                        return [(s2, ("adt", RES, 1, ((0, v2),))) for (s2, v2) in self.call_value(frame, s, e, args[1], [])]
+                    if name == "unwrap_or_else":
+                        if some:
+                            return [(s, pay)]
+                        return self.call_value(frame, s, e, args[1], [])
+                    if not some:
+                        return [(s, a)]
+                    if name == "map":
+                        return [(s2, ("adt", OPT, 1, ((0, v2),))) for (s2, v2) in self.call_value(frame, s, e, args[1], [pay])]
+                    if name == "and_then":
+                        return self.call_value(frame, s, e, args[1], [pay])
+                    if name == "filter":
+                        out = []
+                        for (s2, v2) in self.call_value(frame, s, e, args[1], [("ref", pay) if False else pay]):
+                            v2 = self.load_ref(s2, v2)
+                            if is_c(v2):
+                                out.append((s2, a if v2[1] else ("adt", OPT, 0, ())))
+                                continue
+                            s3 = s2.fork()
+                            s2.conds.append(("true", v2, sp, len(s2.events)))
+                            s3.conds.append(("false", v2, sp, len(s3.events)))
+                            out.append((s2, a))
+                            out.append((s3, ("adt", OPT, 0, ())))
+                        return out
+        if krate == "core" and name == "inspect_err" and len(args) == 2 and self.is_callable(args[1]):
+            a = self.load_ref(s, args[0])
+            if isinstance(a, tuple) and a and a[0] == "adt" and a[1] == "core::result::Result":
+                if a[2] == 0:
+                    return [(s, a)]
+                return [(s2, a) for (s2, _v) in self.call_value(frame, s, e, args[1], [("ref", dict(a[3]).get(0))])]
+            return [(s, ("inspected", a, args[1]))]          # opaque: the closure runs on the error edge (try_value)
+        if krate == "core" and name in ("or_else", "and_then", "map", "map_err") and len(args) == 2 and self.is_callable(args[1]):
             a = self.load_ref(s, args[0])
             if isinstance(a, tuple) and a and a[0] == "adt" and a[1] == "core::result::Result":
                 is_ok = a[2] == 0
@@ -1336,7 +1587,7 @@ class Interp:
                 if (name in ("or_else", "map_err") and is_ok) or (name in ("and_then", "map") and not is_ok):
                     return [(s, a)]                       # the closure does not run
                 out = []
-                for (s2, v2) in self.call_closure(frame, s, args[1], [payload]):
+                for (s2, v2) in self.call_value(frame, s, e, args[1], [payload]):
                     if name == "map":
                         v2 = ("adt", "core::result::Result", 0, ((0, v2),))
                     elif name == "map_err":
@@ -1371,6 +1622,16 @@ class Interp:
                      "leading_zeros": 64 - v.bit_length(), "count_ones": bin(v).count("1")}[name]
                 return [(s, C(r))]
             return [(s, ("call", name, (a,), None))]
+        if krate == "core" and name in ("checked_sub", "checked_add") and len(args) == 2:
+            a, b = self.load_ref(s, args[0]), self.load_ref(s, args[1])
+            OPT = "core::option::Option"
+            if name == "checked_sub":
+                if is_c(a) and is_c(b):
+                    return [(s, ("adt", OPT, 1, ((0, C(a[1] - b[1])),)) if a[1] >= b[1] else ("adt", OPT, 0, ()))]
+                s2 = s.fork()
+                s.conds.append(("true", ("bin", "Ge", a, b), sp, len(s.events)))
+                s2.conds.append(("false", ("bin", "Ge", a, b), sp, len(s2.events)))
+                return [(s, ("adt", OPT, 1, ((0, self.binop("Sub", a, b)),))), (s2, ("adt", OPT, 0, ()))]
         if krate == "core" and name == "wrapping_neg" and len(args) == 1:
             a = self.load_ref(s, args[0])
             if is_c(a):
